@@ -9,6 +9,7 @@ import BB.Oracle.Cleaner
 import BB.Oracle.Channel
 import BB.Oracle.Retry
 import BB.Oracle.Callable
+import BB.Oracle.Notifier
 
 open BB.Oracle
 
@@ -17,7 +18,8 @@ def families : List (String × Fam) := [
   ("cleaner", CleanerFam.fam),
   ("channel", ChannelFam.fam),
   ("retry", RetryFam.fam),
-  ("callable", CallableFam.fam)
+  ("callable", CallableFam.fam),
+  ("notifier", NotifierFam.fam)
 ]
 
 structure OAcc (σ : Type) where
